@@ -16,7 +16,7 @@ import random
 import time
 
 from . import build, project
-from .core import MachineryError, Part, merge_worker_outputs, parallel_replay
+from .core import trim, MachineryError, Part, merge_worker_outputs, parallel_replay
 from .fam_multi import engines, sql_mat_after_xfer
 from .fam_sql import bag, db, load_table, nested_compound
 from .procs import make_processor
@@ -227,8 +227,8 @@ def worker(lines, ctx):
         if any(a["a"] not in BUILDERS for a in st["acts"]) and any(a["a"] in BUILDERS for a in st["acts"]):
             out["nontrivial"] += 1
         replay_state(st, out)
-        if len(out["violations"]) > 30:
-            out["violations"] = out["violations"][:30]
+        if len(out["violations"]) > 60:
+            out["violations"] = trim(out["violations"])
         if len(out["samples"]) < 1 and len(st["acts"]) >= 2:
             out["samples"].append({"acts": st["acts"]})
     return out
